@@ -23,7 +23,8 @@ pub struct OwnedSerde;
 impl Prop for OwnedSerde {
     type Case = OwnedCase;
     fn strategy(&self, _tier: Tier) -> BoxedStrategy<OwnedCase> {
-        let bytes = || vec(any::<u8>(), 0..40).prop_map(B);
+        // mostly short fields; 1 in 15 several KiB long (buffered deserialisers preallocate cautiously at such sizes)
+        let bytes = || prop_oneof![28 => vec(any::<u8>(), 0..40), 1 => vec(any::<u8>(), 4000..4200), 1 => (any::<u8>(), 4097usize..70000).prop_map(|(b, n)| (0..n).map(|i| b.wrapping_add((i % 251) as u8)).collect::<Vec<u8>>())].prop_map(B);
         boxed((bytes(), bytes(), bytes()).prop_map(|(head, seq, qual)| OwnedCase { head, seq, qual }))
     }
     fn check(&self, c: &OwnedCase, ctx: &mut Ctx) -> CheckResult {
@@ -65,6 +66,25 @@ impl Prop for OwnedSerde {
                     Err(e) => fail!(format!("serde-positional/{}/deserialize", $name), "deserialisation of {:?} from a positional (bincode-like) format failed: {}", $v, e),
                 }
             }};
+        }
+        // and through a buffered self-describing value tree (what serde does internally for tagged / flattened
+        // types, and what serde_json::Value, toml or yaml front ends do): sequence lengths are known exactly there
+        macro_rules! via_value {
+            ($v:expr, $t:ty, $name:expr) => {{
+                let tree = match serde_json::to_value(&$v) {
+                    Ok(t) => t,
+                    Err(e) => fail!(format!("serde-value/{}/serialize", $name), "serialisation failed: {}", e),
+                };
+                match serde_json::from_value::<$t>(tree) {
+                    Ok(back) => ensure!(back == $v, format!("serde-value/{}/not-equal", $name), "came back different from a buffered value tree: head {} -> {} bytes, seq {} -> {} bytes", $v.head.len(), back.head.len(), $v.seq.len(), back.seq.len()),
+                    Err(e) => fail!(format!("serde-value/{}/deserialize", $name), "deserialisation from a buffered value tree failed: {}", e),
+                }
+            }};
+        }
+        via_value!(fa, fasta::OwnedRecord, "fasta-owned");
+        via_value!(a, fastq::OwnedRecord, "fastq-owned");
+        if c.head.len() > 4096 || c.seq.len() > 4096 || c.qual.len() > 4096 {
+            ctx.class("owned record with a field longer than 4096 bytes");
         }
         positional!(fa, fasta::OwnedRecord, "fasta-owned");
         positional!(a, fastq::OwnedRecord, "fastq-owned");
@@ -159,6 +179,24 @@ where
             before.iter().take(4).collect::<Vec<_>>(),
             R::set_recs(&back2).iter().take(4).collect::<Vec<_>>()
         );
+        // and through a buffered value tree (exact sequence lengths known to the deserialiser)
+        let tree = match serde_json::to_value(&set) {
+            Ok(t) => t,
+            Err(e) => fail!(format!("serde-value/{}-set/serialize", name), "serialisation failed: {}", e),
+        };
+        let back3: R::Set = match serde_json::from_value(tree) {
+            Ok(b) => b,
+            Err(e) => fail!(format!("serde-value/{}-set/deserialize", name), "deserialisation from a buffered value tree failed: {}", e),
+        };
+        ensure!(
+            R::set_len(&back3) == len && R::set_recs(&back3) == before,
+            format!("serde-value/{}-set/records-differ", name),
+            "buffered value tree: {} records before, {} after; before {:?}\n  after {:?}",
+            len,
+            R::set_len(&back3),
+            before.iter().take(4).collect::<Vec<_>>(),
+            R::set_recs(&back3).iter().take(4).collect::<Vec<_>>()
+        );
         if filled {
             prev_len = len;
         }
@@ -196,7 +234,7 @@ impl Prop for SetSerde {
     }
 }
 
-pub const RULE: &str = "sub-check owned-records: fasta/fastq OwnedRecord with arbitrary bytes (0..40 each) -> serde_json and a positional bincode-like format (singly and inside a list) -> equal. Sub-check record-sets: (format, any input, capacity, list of batch sizes) -> one reused RecordSet is refilled (plain and exact reads, so later batches are smaller than earlier ones and stale offsets remain beyond its length) and after every call serialised with serde_json and with a positional bincode-like format (harness/src/minibin.rs) and deserialised: same len(), same records through every accessor, idempotent re-serialisation; also after the end / an error. Non-trivial = input with >= 2 records (sets) / non-empty fields (owned). Distinct = hash(case).";
+pub const RULE: &str = "sub-check owned-records: fasta/fastq OwnedRecord with arbitrary bytes (0..40 each, 1 in 15 fields 4000..70000 bytes) -> serde_json text, a buffered serde_json::Value tree and a positional bincode-like format (singly and inside a list) -> equal. Sub-check record-sets: (format, any input, capacity, list of batch sizes) -> one reused RecordSet is refilled (plain and exact reads, so later batches are smaller than earlier ones and stale offsets remain beyond its length) and after every call serialised with serde_json (text and buffered Value tree) and with a positional bincode-like format (harness/src/minibin.rs) and deserialised: same len(), same records through every accessor, idempotent re-serialisation; also after the end / an error. Non-trivial = input with >= 2 records (sets) / non-empty fields (owned). Distinct = hash(case).";
 
 pub fn run(tier: Tier) -> i32 {
     let mut run = Run::new("C19", tier, "exploration");
@@ -206,7 +244,7 @@ pub fn run(tier: Tier) -> i32 {
     let q = SetSerde;
     run.replays("record-sets", &q);
     run.generated("record-sets", &q, tier.pick(150_000, 1_500_000));
-    run.finish(RULE, &["two serialisers: serde_json (self-describing) and a minimal positional format written for this harness (bincode-like); other formats are not exercised"])
+    run.finish(RULE, &["three paths: serde_json text (self-describing, streaming), serde_json::Value (self-describing, buffered: exact sequence lengths) and a minimal positional format written for this harness (bincode-like); other formats are not exercised"])
 }
 
 pub fn replay(run: &mut Run, file: &std::path::Path) -> Option<bool> {
